@@ -144,6 +144,19 @@ func (fv *FnV) moduleCall(st *State, callee *ssa.Function, args []ssa.Value, clo
 		argTerms = append(argTerms, sv)
 	}
 	ms := fv.g.effectiveMods(callee)
+	if fv.k != nil {
+		for _, cl := range fv.k.CallAsserts[shortCallee(cname)] {
+			env := fv.contractEnv(st, fv.entry, nil)
+			if li := fv.innermostLoop(); li != nil {
+				env.loop = li
+			}
+			t, err := env.evalBool(cl.Text)
+			if err != nil {
+				return nil, fmt.Errorf("%s: at-call %s assert %s: %v", fv.name, cname, cl.Label, err)
+			}
+			fv.emit(st, "A", shortCallee(cname)+"."+cl.Label, cl.Props, t, "holds just before the call of "+cname+": "+cl.Text, pos)
+		}
+	}
 	if k != nil {
 		env := fv.calleeEnv(st, st, callee, argTerms, clo, nil)
 		for _, cl := range k.Requires {
@@ -162,6 +175,43 @@ func (fv *FnV) moduleCall(st *State, callee *ssa.Function, args []ssa.Value, clo
 	pre := st.clone()
 	fv.frameCall(st, ms, cname, pos)
 	fv.havoc(st, ms, cname)
+	// effects rooted at a pointer parameter change that object only
+	for _, comp := range sortedKeys(ms.prm) {
+		for i := range ms.prm[comp] {
+			if i >= len(argTerms) {
+				continue
+			}
+			ref := fv.term(argTerms[i])
+			cs := fv.compSort(comp)
+			elemSort := strings.TrimSuffix(strings.TrimPrefix(cs, "(Array Ref "), ")")
+			nv := fv.c.Fresh("prm!"+comp, elemSort)
+			fv.frameWrite(st, comp, ref, pos)
+			fv.heapSet(st, comp, sto(fv.heapGet(st, comp), ref, nv))
+		}
+	}
+	if k != nil {
+		// `modifies <comp> at <expr>`: only the named objects change
+		env := fv.calleeEnv(pre, pre, callee, argTerms, clo, nil)
+		for comp, exprs := range k.ModAt {
+			for _, ex := range exprs {
+				v, err := env.eval(ex)
+				if err != nil {
+					return nil, fmt.Errorf("%s: call of %s: modifies at %s: %v", fv.name, cname, ex, err)
+				}
+				ref := v.T
+				if v.S == sSlice {
+					ref = "(s!ref " + v.T + ")"
+				}
+				for _, key := range fv.g.expandModKey(comp) {
+					cs := fv.compSort(key)
+					elemSort := strings.TrimSuffix(strings.TrimPrefix(cs, "(Array Ref "), ")")
+					nv := fv.c.Fresh("modat!"+key, elemSort)
+					fv.frameWrite(st, key, ref, pos)
+					fv.heapSet(st, key, sto(fv.heapGet(st, key), ref, nv))
+				}
+			}
+		}
+	}
 	res := fv.freshResults(st, sig, shortCallee(cname))
 	if k != nil {
 		env := fv.calleeEnv(st, pre, callee, argTerms, clo, res)
@@ -175,6 +225,15 @@ func (fv *FnV) moduleCall(st *State, callee *ssa.Function, args []ssa.Value, clo
 	}
 	fv.recordErrCall(st, cname, sig, res, pos)
 	return res, nil
+}
+
+func sortedKeys(m map[string]map[int]bool) []string {
+	var ks []string
+	for k := range m {
+		ks = append(ks, k)
+	}
+	sort.Strings(ks)
+	return ks
 }
 
 func shortCallee(c string) string {
@@ -310,6 +369,12 @@ func (fv *FnV) libCall(st *State, callee *ssa.Function, cc *ssa.CallCommon, pos 
 		return &SV{v: Val{fv.c.Define("strcmp", sBV64, ite("(< "+c+" 0)", bvLit(-1, 64), ite("(= "+c+" 0)", bvLit(0, 64), bvLit(1, 64)))), sBV64}, typ: types.Typ[types.Int]}, nil
 	case "strings.ToLower", "strings.ToUpper", "strings.TrimSpace":
 		fn := fv.uf("lib!"+name, []string{sStr}, sStr)
+		if name == "strings.ToLower" && fv.g.reg.has("spec!ToLower") {
+			fn = "spec!ToLower"
+		}
+		if name == "strings.ToUpper" && fv.g.reg.has("spec!ToUpper") {
+			fn = "spec!ToUpper"
+		}
 		n := fv.c.Define("strfn", sStr, app(fn, arg(0)))
 		fv.assume(st, "(ok!str "+n+")")
 		return str(n), nil
@@ -489,6 +554,7 @@ func (fv *FnV) builtin(st *State, ins ssa.Instruction, b *ssa.Builtin, cc *ssa.C
 		return &SV{typ: cc.Signature().Results()}, nil
 	case "recover":
 		r := fv.c.Fresh("recovered", sAny)
+		fv.assume(st, implies(not(fv.panickingTerm()), eq(r, "a!nil")))
 		fv.assume(st, fv.wf(r, types.NewInterfaceType(nil, nil), st.now))
 		return &SV{v: Val{r, sAny}, typ: types.NewInterfaceType(nil, nil)}, nil
 	case "copy":
@@ -627,7 +693,7 @@ func (fv *FnV) doGo(st *State, ins *ssa.Go) error {
 	fv.goSites = append(fv.goSites, ins)
 	ms := newModSet()
 	if m, ok := fv.g.modsets[f]; ok {
-		ms.union(m)
+		ms.union(m.flat())
 	} else {
 		ms.external = true
 	}
